@@ -60,7 +60,7 @@ var Seeds = []Seed{
 	{"4k3/8/8/8/4P3/8/8/4K3 b - e3 0 1", "ep no-capturer"},
 	{"k7/8/8/3pP3/8/8/8/3RK3 w - d6 0 1", "ep file-discover"},
 	{"4k3/8/8/r2pPK2/8/8/8/8 w - d6 0 1", "ep rank-pin-king-far-side"},
-	{"7k/4N2p/4b3/3pP3/8/8/8/BK6 w - d6 0 1", "ep mate-only-by-ep low"},                                   // the en passant capture is the only mate in one (discovered)
+	{"7k/4N2p/4b3/3pP3/8/8/8/BK6 w - d6 0 1", "ep mate-only-by-ep low"},                                    // the en passant capture is the only mate in one (discovered)
 	{"r1bq1r2/pp2n3/4N2k/3pPppP/1b1n2Q1/2N5/PP3PP1/R1B1K2R w KQ g6 0 15", "ep mate-only-by-ep big castle"}, // Gundersen - Faul 1928: 15.hxg6 e.p. mate
 	// promotion edges
 	{"n1n5/PPPk4/8/8/8/8/4Kppp/5N1N b - - 0 1", "promo big"},
